@@ -46,8 +46,9 @@ class Project(object):
 
         if root:
             droot = root + '.'
-            for package in sys.modules:
-                if package.startswith(droot):
+            loaded = [p for p in sys.modules if p.startswith(droot)]
+            if loaded and self._loaded_is_ours(root):
+                for package in loaded:
                     modules.add(package[len(droot):].partition('.')[0])
         else:
             for package in sys.modules:
@@ -83,9 +84,31 @@ class Project(object):
 
     def _has_module(self, path, name):
         # type: (str, str) -> bool
+        return self._top_file(path, name) is not None
+
+    def _top_file(self, path, name):
+        # type: (str, str) -> str | None
         mpath = os.path.join(path, name)
-        return (os.path.exists(os.path.join(mpath, '__init__.py'))
-                or any(os.path.exists(mpath + s) for s in SUFFIXES))
+        for fname in [mpath + s for s in SUFFIXES] + [os.path.join(mpath, '__init__.py')]:
+            if os.path.exists(fname):
+                return fname
+        return None
+
+    def _loaded_is_ours(self, name):
+        # type: (str) -> bool
+        """Do the loaded submodules of name's top-level module say anything here
+
+        Not if a file of the project has that name: they are the children of
+        the module it shadows."""
+        top = name.partition('.')[0]
+        loaded = getattr(sys.modules.get(top), '__file__', None)
+        if not loaded:
+            return True  # builtin or frozen: always wins
+        for p in self.get_path():
+            fname = self._top_file(p, top)
+            if fname:
+                return os.path.realpath(fname) == os.path.realpath(loaded)
+        return True
 
     @contextmanager
     def check_changes(self):
@@ -146,7 +169,8 @@ class Project(object):
 
         module = None  # type: SourceModule | ImportedModule | None
         if not filename:
-            if name in sys.modules:
+            # a submodule its parent creates at import time: os.path
+            if name in sys.modules and self._loaded_is_ours(name):
                 module = ImportedModule(sys.modules[name])
         else:
             if name in self.dyn_modules or not is_source:
